@@ -1,4 +1,5 @@
 import warnings
+from copy import deepcopy
 import numpy as np
 from .utils import _parse_to_list, _concatenate_to_array
 from .core_objects import Signal, SignalSlice, Module, Network
@@ -121,8 +122,8 @@ def finite_difference(blk: Module, fromsig: Union[Signal, Iterable[Signal]] = No
                 else:
                     df_an[Iout] = df_an[Iout] + 1j * np.ones(shape)
 
-        # Set the output sensitivity
-        Sout.sensitivity = df_an[Iout]
+        # Set the output sensitivity (a copy, so the seed that is used for the numerical values is never modified)
+        Sout.sensitivity = deepcopy(df_an[Iout])
 
         # Perform the analytical sensitivity calculation
         blk.sensitivity()
